@@ -661,9 +661,14 @@ func (fr *Frame) havocFx(class string) {
 }
 
 // havocAssigns applies a callee's assigns clause to the caller's state.
-func (fr *Frame) havocAssigns(fc *FuncContract, env *Env, st *State) {
+func (fr *Frame) havocAssigns(fc *FuncContract, env0 *Env, st *State) {
 	enc := fr.enc
 	w := enc.w
+	// every target is evaluated in the state before the call (not in the partially havocked one)
+	snap := st.clone()
+	envc := *env0
+	envc.state = snap
+	env := &envc
 	for _, a := range fc.Assigns {
 		env.where = a.Where()
 		func() {
@@ -1054,6 +1059,13 @@ func (fr *Frame) atCallChecks(ci ssa.CallInstruction, c *ssa.CallCommon) {
 			}
 		}
 		env.resolve = func(n string) (TV, bool) { return fr.resolveNameAt(n, li, ci) }
+		// $arg0, $arg1, ...: the arguments of the call (receiver first)
+		for ai, a := range c.Args {
+			if _, isLV := fr.lvals[a]; isLV {
+				continue
+			}
+			env.vars[fmt.Sprintf("ghost_arg%d", ai)] = TV{fr.val(a), a.Type()}
+		}
 		fr.resolveState = fr.cur
 		t := fr.safeTr(env, ac)
 		fr.resolveState = nil
